@@ -174,7 +174,7 @@ def conditions(tier, seed, active):
     for d in (3, 4, 6, 7):
         for k in cand.keywords(d):
             for kind in kinds_for(d, k):
-                if quick and kind in ("null", "arr_str", "obj_int") and rng.random() < 0.6:
+                if quick and rng.random() < 0.5:
                     continue
                 c("kw/%s/%s/d%d" % (k, kind, d), "single", dict(d=d, k=k, kind=kind))
                 if not quick or rng.random() < 0.08:
